@@ -38,6 +38,7 @@ type world struct {
 	net    [][]*netState
 	paths  [][]string
 	tmp    string
+	shapes    map[string][2]int
 	treeUsers map[string]map[int]bool
 	optUsers  map[string]map[int]bool
 	walfd  int
@@ -57,16 +58,52 @@ func (w *world) walWrite(b []byte) {
 }
 
 // budgetFor is the per-op step budget (yields): far above anything measured on
-// the unchanged tree (about 1 yield per input byte for ordinary pages, up to
-// about 40 per byte for pages nested 300 deep), small enough to be reached in
-// seconds by a loop or recursion that does not advance.
-func budgetFor(n int) int64 { return 20_000_000 + 1000*int64(n) }
+// the unchanged tree, small enough to be reached in seconds by a loop or
+// recursion that does not advance. The library's cost is linear in the size of
+// ordinary pages (about 1 yield per input byte) and quadratic in nesting depth
+// (ancestor walks per node: measured 2.7M yields for an 800-deep <b><i> chain),
+// so the budget has a term in nodes x depth of the parsed input.
+func budgetFor(n int, nodes, depth int) int64 {
+	b := 20_000_000 + 1000*int64(n) + 60*int64(nodes)*int64(depth)
+	if b > 3_000_000_000 {
+		b = 3_000_000_000
+	}
+	return b
+}
+
+// shapeOf parses bytes the way a browser would and returns node count and maximum depth.
+func shapeOf(b []byte) (nodes, depth int) {
+	doc, err := html.Parse(bytes.NewReader(b))
+	if err != nil {
+		return 0, 0
+	}
+	type item struct {
+		n *html.Node
+		d int
+	}
+	stack := []item{{doc, 0}}
+	for len(stack) > 0 {
+		it := stack[len(stack)-1]
+		stack = stack[:len(stack)-1]
+		nodes++
+		if it.d > depth {
+			depth = it.d
+		}
+		for c := it.n.FirstChild; c != nil; c = c.NextSibling {
+			stack = append(stack, item{c, it.d + 1})
+		}
+	}
+	return nodes, depth
+}
 
 func (w *world) setup() error {
 	p := w.p
 	w.docs = map[string][]byte{}
+	w.shapes = map[string][2]int{}
 	for _, d := range p.Docs {
 		w.docs[d.ID] = d.Bytes()
+		n, dp := shapeOf(w.docs[d.ID])
+		w.shapes[d.ID] = [2]int{n, dp}
 	}
 	w.trees = map[string]*treeInst{}
 	for _, ts := range p.Trees {
@@ -212,13 +249,12 @@ func (w *world) runOp(t *task, i int) {
 	t.curOp = i
 	t.opYields = 0
 	t.opStallNs = 0
-	size := 0
+	docID := op.Doc
 	if op.Op == "Apply" {
-		size = len(w.docs[w.trees[op.Tree].spec.Doc])
-	} else {
-		size = len(w.docs[op.Doc])
+		docID = w.trees[op.Tree].spec.Doc
 	}
-	t.budget = budgetFor(size)
+	size := len(w.docs[docID])
+	t.budget = budgetFor(size, w.shapes[docID][0], w.shapes[docID][1])
 	oo.Task, oo.Op = t.id, i
 	oo.Started = true
 	w.walWrite(w.wal[t.id][i][0])
